@@ -343,7 +343,9 @@ def Mask.toPM : Mask → PM
     (`none` = Python `None`), and the cache keys written on `self` -/
 def getstate1 (P : Params) (q : Obj) : St × Option (List Bool) × List String :=
   match q.vals with
-  | .single x => (q.toSt (.single x) q.mask.toPM [] [], none, [])
+  | .single x =>
+    -- a masked single value is not stored: the state holds the default (pickler.py, single-value branch)
+    (q.toSt (.single (if q.mask.all then q.default.getD 0 0 else x)) q.mask.toPM [] [], none, [])
   | .array vshape items =>
     if q.mask.all then
       (q.toSt .none (.scalar true) [.allMasked] [], none, [])
@@ -565,5 +567,21 @@ theorem lpDecF_enc (items : List Item) : ∀ f, (lpEnc items).length ≤ f → l
 /-- length-prefixed serialisation of a list of items -/
 def Codec.lenPrefixed : Codec (List Item) Blob :=
   ⟨lpEnc, lpDec, fun x => lpDecF_enc x _ (Nat.le_refl _)⟩
+
+end PMV.Pickle
+
+namespace PMV.Pickle
+
+/-! ### per-item encoding (pickler.py `_encode_floats` 700-712 / `_decode_floats` 765-776) -/
+
+/-- `values.reshape((-1, item_size)).swapaxes(0, 1)`: one flat array per item component, each
+    holding that component of every element (`rows` = the elements, each a list of `isz` scalars) -/
+def itemColumns {α : Type} [Inhabited α] (isz : Nat) (rows : List (List α)) : List (List α) :=
+  (List.range isz).map fun k => rows.map fun r => r.getD k default
+
+/-- `values[k] = decoded item k; np.moveaxis(values, 0, -1)`: element `i` collects entry `i` of
+    every component array -/
+def itemRows {α : Type} [Inhabited α] (n : Nat) (cols : List (List α)) : List (List α) :=
+  (List.range n).map fun i => cols.map fun c => c.getD i default
 
 end PMV.Pickle
